@@ -2,4 +2,6 @@
 EXTENDS TypeClass, IOUtils
 ASSUME TreeSound
 ASSUME Export(IOEnv.OUTF)
+ASSUME SpineSound
+ASSUME ExportSpines(IOEnv.OUTF \o ".spines")
 ====
